@@ -194,8 +194,13 @@ Proof.
     apply Forall_app. split; [apply own_reply_wf | eapply Forall_wf_mono; [|exact Hreps]; lia]. }
   destruct f;
     try (inversion H; subst; left; simpl; auto; fail);
-    match type of H with context [arrive ?F ?O ?R] => destruct (arrive F O R) as [[q dl] br] eqn:Ha end;
-    right; eapply Hgen; eauto.
+    try (match type of H with context [arrive ?F ?O ?R] => destruct (arrive F O R) as [[q dl] br] eqn:Ha end;
+         right; eapply Hgen; eauto; fail).
+  (* FResetDelivered: executed, nothing is sent *)
+  inversion H; subst. right. exists []. simpl. rewrite app_nil_r.
+  split; [reflexivity|]. split.
+  { unfold arrive_ok, head_ok. split; [exact I|]. split; [constructor|]. intros _. split; [constructor | reflexivity]. }
+  split; [reflexivity|]. eapply Forall_wf_mono; [|exact Hreps]. lia.
 Qed.
 
 Lemma seq_step : forall d st, good d -> p_seq st = p_req st mod M16 ->
@@ -779,4 +784,40 @@ Proof.
   assert (HL : LB seq0 st0).
   { unfold LB, st0, init_state; simpl. split; [lia|]. split; [constructor|]. destruct connected; simpl; auto. }
   destruct (run_lb seq0 d retries cs st0 HL) as (_ & _ & Hw). apply Hw; [exact Hlt | reflexivity].
+Qed.
+
+(* ------------------------------------------------------------------ delivered => executed exactly once *)
+Lemma read_log : forall d st2 c2 fs2, s_log (a_st (read_reply d st2 c2 fs2)) = s_log st2.
+Proof.
+  intros. unfold read_reply, fail, with_conn. destruct (c_queue c2); simpl; [reflexivity|].
+  destruct (negb (r_type_ok r)); simpl; [reflexivity|].
+  destruct (d_seqcheck d && negb (r_seq r =? p_seq st2)); reflexivity.
+Qed.
+
+(* the fault lets the request reach the server *)
+Definition delivers (f : fault) : bool := match f with FDropReq | FResetBefore => false | _ => true end.
+
+(* On a live connection, one attempt whose request reaches the server — whatever happens to the
+   connection or the reply afterwards, including a reset between delivery and handling — runs the
+   method exactly once; a oneway call returns None. *)
+Lemma delivered_executed_once : forall d k tok st c f fs,
+  p_conn st = Some c -> c_broken c = false -> c_srvclosed c = false -> delivers f = true ->
+  let a := attempt d k tok st (f :: fs) in
+  s_log (a_st a) = tok :: s_log st /\ (rk k = None -> a_res a = inr ONone).
+Proof.
+  intros d k tok st c f fs Hc Hb Hs Hf. unfold attempt. rewrite Hc. unfold invoke. rewrite Hb.
+  unfold serve. rewrite Hs. simpl next_fault. cbv beta iota.
+  destruct f; try discriminate; simpl;
+    try (match goal with |- context [arrive ?F ?O ?R] => destruct (arrive F O R) as [[q dl] br] end);
+    destruct (rk k); simpl; try rewrite read_log; simpl; split; auto; intros; discriminate.
+Qed.
+
+(* and a request that does not reach the server is not executed *)
+Lemma undelivered_not_executed : forall d k tok st c f fs,
+  p_conn st = Some c -> c_broken c = false -> delivers f = false ->
+  s_log (a_st (attempt d k tok st (f :: fs))) = s_log st.
+Proof.
+  intros d k tok st c f fs Hc Hb Hf. unfold attempt. rewrite Hc. unfold invoke. rewrite Hb.
+  unfold serve. destruct (c_srvclosed c); simpl next_fault; cbv beta iota;
+    destruct f; try discriminate; simpl; destruct (rk k); simpl; try rewrite read_log; reflexivity.
 Qed.
